@@ -204,6 +204,22 @@ OVERRIDES = {
          "outside it validate deviates from the statement -- known finding KF12, reported by the bounded part. Trusted: z3, the pyvc "
          "translator, the data-model assumption that module sentinels (NoValue) are never container elements, write_data[anydatum]."),
    technique="contract-based deductive verification (AST->VC, z3) of every validator incl. exceptional postconditions; bounded differential check against the same executable predicate"),
+ "C08": dict(cat="exploration", design="0.3, 0.10, 7/C08",
+   text=("Bounded stand-in (labelled bounded, never counted as proved): reader schemas derived from writer schemas by single evolution "
+         "steps at every position (promotions, incompatible changes, unions, field add/drop/rename/alias/reorder, record renames, enum "
+         "symbol changes, fixed size changes, named-kind changes keeping the name, reader-only fields with JSON defaults of every kind) "
+         "against an executable resolution oracle written from the specification. Deductive pieces only, not enough to carry the "
+         "property: maybe_promote (the value conversions of the promotions), match_types on primitive names (equal or promotable), "
+         "read_enum with a reader enum (unknown symbol -> reader default, else SchemaResolutionError). Level therefore exploration."),
+   note=("Known findings KF07 (reader union: first matching branch, promotions included) and KF12 (reader-only defaults handed out as raw "
+         "JSON) are excluded by predicate; one defect fixed (named types of different kinds matched by name). Oracle: spec/resolve.py."),
+   technique="bounded differential checking against an executable resolution oracle; contract-based deductive verification of three resolution helpers"),
+ "C11": dict(cat="exploration", design="0.3, 0.10, 7/C11",
+   text=("Bounded stand-in (labelled bounded, never counted as proved): parse_schema against an independent parser written from the "
+         "specification on valid schemas; every listed kind of ill-forming mutation at every position. Deductive piece only: schema_name "
+         "returns exactly the (namespace, full name) pair the specification's 'Names' rules prescribe. Level therefore exploration."),
+   note="Oracle: spec/schema.py (written from the Avro specification and the property text); two defects fixed (decimal precision 0; union-typed field defaults / bool as int default).",
+   technique="bounded differential checking against an independent schema parser; contract-based deductive verification of the name rule"),
  "C13": dict(cat="other", design="0.3, 0.10, 7/C13",
    text=("Deductive: _to_parsing_canonical_form (the recursive writer behind to_parsing_canonical_form) appends exactly PCF(schema) "
          "for every parsed schema -- PCF being the Avro specification's transformation written as specification functions "
